@@ -282,6 +282,7 @@ impl BlobVerifier {
             )
         }) {
             info!(reason = %error, "failed to verify metadata retrieved from Celestia; dropping it");
+            return None;
         }
         Some(metadata)
     }
